@@ -38,7 +38,7 @@
 (***************************************************************************)
 EXTENDS Naturals, Integers, Sequences, FiniteSets, TLC, Json
 CONSTANTS NObj, MaxDims, FIXED, HistMode, SampleMod, WalkDepth, Depth,
-          UriKinds, MetaKinds, KeyKinds, NameKinds, InitDims, BorrowKinds, DimTags
+          UriKinds, MetaKinds, KeyKinds, NameKinds, InitDims, BorrowKinds, DimTags, MsVals, WithBad
 VARIABLES objs, heap, err, lastAct, hist, depth
 vars == <<objs, heap, err, lastAct, hist, depth>>
 
@@ -114,8 +114,12 @@ DimDestroyAt(m, dp, i) ==
       m1 == IF Owned(el.nm) THEN FreeM(m0, el.nm.p) ELSE m0
   IN WriteEl(m1, dp, i, ZeroDim)
 
-RECURSIVE DimDestroyUpTo(_, _, _)
-DimDestroyUpTo(m, dp, i) == IF i = 0 THEN m ELSE DimDestroyAt(DimDestroyUpTo(m, dp, i - 1), dp, i)
+\* the loop over the entries, unrolled (MaxDims <= 3; no RECURSIVE operators: TLC's coverage analysis cannot digest them here)
+DimDestroyUpTo(m, dp, n) ==
+  CASE n = 0 -> m
+    [] n = 1 -> DimDestroyAt(m, dp, 1)
+    [] n = 2 -> DimDestroyAt(DimDestroyAt(m, dp, 1), dp, 2)
+    [] OTHER -> DimDestroyAt(DimDestroyAt(DimDestroyAt(m, dp, 1), dp, 2), dp, 3)
 
 \* storage_properties_dimensions_destroy(self): CHECK(data); destroy each; free(data); zero {data,size}
 DimsDestroy(m, ob) ==
@@ -137,16 +141,19 @@ DimCopyAt(m, ddp, sdp, i) ==
       r == CopyString(m0, del.nm, StrSrc(m0.h, sel.nm))
   IN WriteEl([h |-> r.h, e |-> r.e], ddp, i, [nm |-> r.d, k |-> sel.k, v |-> sel.v])
 
-RECURSIVE DimCopyUpTo(_, _, _, _)
-DimCopyUpTo(m, ddp, sdp, i) == IF i = 0 THEN m ELSE DimCopyAt(DimCopyUpTo(m, ddp, sdp, i - 1), ddp, sdp, i)
+DimCopyUpTo(m, ddp, sdp, n) ==
+  CASE n = 0 -> m
+    [] n = 1 -> DimCopyAt(m, ddp, sdp, 1)
+    [] n = 2 -> DimCopyAt(DimCopyAt(m, ddp, sdp, 1), ddp, sdp, 2)
+    [] OTHER -> DimCopyAt(DimCopyAt(DimCopyAt(m, ddp, sdp, 1), ddp, sdp, 2), ddp, sdp, 3)
 
 \* ---- who points where ----------------------------------------------------------------------------------
 NDimsSeen(h, ob) == IF ob.dp > 0 /\ ob.dp \in DOMAIN h THEN Min(ob.dn, Len(h[ob.dp].el)) ELSE 0
 ObjPtrs(h, ob) == <<ob.s[1].p, ob.s[2].p, ob.s[3].p, ob.s[4].p, ob.dp>>
                   \o [i \in 1..NDimsSeen(h, ob) |-> h[ob.dp].el[i].nm.p]
-RECURSIVE TravUpTo(_, _, _)
-TravUpTo(os, h, i) == IF i = 0 THEN <<>> ELSE TravUpTo(os, h, i - 1) \o ObjPtrs(h, os[i])
-Trav(os, h) == TravUpTo(os, h, NObj)
+Trav(os, h) == CASE NObj = 1 -> ObjPtrs(h, os[1])
+                [] NObj = 2 -> ObjPtrs(h, os[1]) \o ObjPtrs(h, os[2])
+                [] OTHER -> ObjPtrs(h, os[1]) \o ObjPtrs(h, os[2]) \o ObjPtrs(h, os[3])      \* NObj <= 3
 Range(sq) == {sq[i] : i \in 1..Len(sq)}
 
 \* ---- canonical projection (what the harness computes from the real structs) -------------------------------
@@ -233,15 +240,12 @@ Copy_(d, s) ==
   IN Done([objs EXCEPT ![d] = x2.ob], m5, <<F_COPY, d, s, 0, 0, 0>>, B(x2.ok))
 
 \* storage_properties_destroy(self)
-RECURSIVE DestroyStrs(_, _, _)
-DestroyStrs(m, ob, i) ==
-  IF i = 0 THEN [h |-> m.h, e |-> m.e, ob |-> ob]
-  ELSE LET p == DestroyStrs(m, ob, i - 1)
-           S == p.ob.s[i]
-       IN IF Owned(S) THEN LET m1 == FreeM([h |-> p.h, e |-> p.e], S.p) IN [h |-> m1.h, e |-> m1.e, ob |-> [p.ob EXCEPT !.s[i] = ZeroS]]
-          ELSE p
+DestroyStr(p, i) ==        \* if (is_ref == 0 && str) { free(str); memset(string, 0) }
+  LET S == p.ob.s[i]
+  IN IF Owned(S) THEN LET m1 == FreeM([h |-> p.h, e |-> p.e], S.p) IN [h |-> m1.h, e |-> m1.e, ob |-> [p.ob EXCEPT !.s[i] = ZeroS]]
+     ELSE p
 Destroy_(o) ==
-  LET p == DestroyStrs(M0, objs[o], 4)
+  LET p == DestroyStr(DestroyStr(DestroyStr(DestroyStr([h |-> heap, e |-> err, ob |-> objs[o]], 1), 2), 3), 4)
       x == DimsDestroy([h |-> p.h, e |-> p.e], p.ob)
   IN Done([objs EXCEPT ![o] = x.ob], [h |-> x.h, e |-> x.e], <<F_DESTROY, o, 0, 0, 0, 0>>, 1)
 
@@ -255,11 +259,11 @@ L_SetUri == \E o \in Objs, k \in UriKinds : SetStr_(o, 1, k, F_URI)
 L_SetMeta == \E o \in Objs, k \in MetaKinds : SetStr_(o, 2, k, F_META)
 L_SetKeys == \E o \in Objs, k \in KeyKinds : SetKeys_(o, k, KeyPartner(k))
 L_SetDim == \E o \in Objs, idx \in 0..(MaxDims - 1), nk \in NameKinds, v \in DimTags : SetDim_(o, idx, nk, v, v)
-L_SetDimBad == \E o \in Objs : \/ \E nk \in {0, 1, 5, 6} : SetDim_(o, 0, nk, 1, 1)      \* NULL / empty / zero-byte names
+L_SetDimBad == WithBad = 1 /\ \E o \in Objs : \/ \E nk \in {0, 1, 5, 6} : SetDim_(o, 0, nk, 1, 1)      \* NULL / empty / zero-byte names
                                \/ SetDim_(o, 0, 2, 4, 1)                                 \* invalid kind
                                \/ SetDim_(o, MaxDims, 2, 1, 1)                           \* index out of range
                                \/ SetDim_(o, 0 - 1, 2, 1, 1)
-L_SetMs == \E o \in Objs, b \in {0, 1} : SetMs_(o, b)
+L_SetMs == \E o \in Objs, b \in MsVals : SetMs_(o, b)
 L_Copy == \E d \in Objs, s \in Objs : d # s /\ Copy_(d, s)
 L_Destroy == \E o \in Objs : Destroy_(o)
 L_Borrow == \E o \in Objs, fld \in {1, 2}, k \in BorrowKinds : Borrow_(o, fld, k)
@@ -315,5 +319,5 @@ OthersUntouched == [][OthersUntouchedStep]_vars
 \* ---- export ----------------------------------------------------------------------------------------------------------
 EmitEdge == PrintT(<<"EDGE", ToJson([path |-> hist', ret |-> lastAct'.ret, post |-> ProjOf(objs', heap')])>>)
 EmitSample == (SampleMod > 1 /\ RandomElement(1..SampleMod) # 1) \/ EmitEdge
-DumpWalk == TLCGet("level") < WalkDepth \/ PrintT(<<"WALK", ToJson(hist)>>)
+DumpWalk == Len(hist) # WalkDepth \/ PrintT(<<"WALK", ToJson(hist)>>)
 =============================================================================
